@@ -79,6 +79,10 @@ def self_check(prog):
                     tr.qual_prefix = ""
                     continue
                 return "identifier_not_lexed_as_name"
+        elif t.kind == "multiline":
+            tv = start_at.get(off)
+            if tv is None or tv[1] != t.text:
+                return "multiline_construct_not_one_token"
         elif t.kind == "doc":
             tv = start_at.get(off)
             if tv is None or tv[0] not in String or tv[1] != t.text:
